@@ -130,6 +130,50 @@ def build_tables(repo):
     return out
 
 
+# classes pickled through __reduce__ = (cls, args): unpickling calls cls(*args)
+REDUCE_CLASSES = {
+    "LineageVolumeCellState": ("lineage/lineage.pyx", [("bioscrape/simulator.pxd", "CellState"), ("bioscrape/simulator.pxd", "VolumeCellState"),
+                                                       ("bioscrape/simulator.pxd", "DelayVolumeCellState"), ("lineage/lineage.pyx", "LineageVolumeCellState")]),
+}
+
+
+def build_reduce_tables(repo):
+    out = {}
+    for cls, (mfile, decls) in REDUCE_CLASSES.items():
+        src = open(os.path.join(repo, mfile)).read().replace("\t", "    ")
+        body = class_body(src, cls)
+        declared = []
+        for dfile, dcls in decls:
+            declared += declared_attrs(open(os.path.join(repo, dfile)).read().replace("\t", "    "), dcls)
+        rb = method_body(body, "__reduce__")
+        m = re.search(r"return\s*\(\s*self\.__class__\s*,\s*\((.*?)\)\s*\)\s*$", rb.strip(), re.S)
+        args = re.findall(r"self\.(\w+)", m.group(1)) if m else ["?unparsed"]
+        im = re.search(r"def __init__\(self\s*,?([^\)]*)\)", body)
+        params = [q.split("=")[0].strip() for q in im.group(1).split(",") if q.strip()] if im else ["?unparsed"]
+        own, _ = getstate_fields(body)
+        out[cls] = dict(declared=declared, reduceArgs=args, initParams=params, getstate=own)
+    return out
+
+
+def reduce_to_lean(tabs):
+    lines = ["", "namespace Bioscrape.Generated", "",
+             "structure ReduceTable where",
+             "  cls : String",
+             "  declared : List String            -- cdef attributes of the class (inherited ones included)",
+             "  reduceArgs : List String          -- attribute passed at each position of the argument tuple of __reduce__",
+             "  initParams : List String          -- parameters of __init__ in order (the tuple is applied to them positionally)",
+             "  getstate : List String            -- attribute at each position of __getstate__ (what the harness observes)",
+             "", "def reduceTables : List ReduceTable := ["]
+    items = []
+    for cls, t in tabs.items():
+        q = lambda xs: lean_list(['"%s"' % a for a in xs])
+        items.append('  { cls := "%s",\n    declared := %s,\n    reduceArgs := %s,\n    initParams := %s,\n    getstate := %s }' % (
+            cls, q(t["declared"]), q(t["reduceArgs"]), q(t["initParams"]), q(t["getstate"])))
+    lines.append(",\n".join(items))
+    lines += ["]", "", "end Bioscrape.Generated", ""]
+    return "\n".join(lines)
+
+
 def lean_list(xs):
     return "[" + ", ".join(xs) + "]"
 
@@ -160,15 +204,18 @@ def to_lean(tabs):
 
 def regenerate(repo, lean_dir):
     tabs = build_tables(repo)
-    text = to_lean(tabs)
+    rtabs = build_reduce_tables(repo)
+    text = to_lean(tabs) + reduce_to_lean(rtabs)
     path = os.path.join(lean_dir, "BioscrapeModel", "Generated", "PickleTables.lean")
     old = open(path).read() if os.path.exists(path) else None
     if old != text:
         with open(path, "w") as fh:
             fh.write(text)
+    tabs = dict(tabs)
+    tabs["__reduce__"] = rtabs
     return tabs
 
 
 if __name__ == "__main__":
     import sys
-    print(to_lean(build_tables(sys.argv[1])))
+    print(to_lean(build_tables(sys.argv[1])) + reduce_to_lean(build_reduce_tables(sys.argv[1])))
